@@ -203,7 +203,7 @@ func c10Scenarios(tier string) []*Scenario {
 
 func init() {
 	register(&PropDef{ID: "C10", Level: "model_checking",
-		Rule: "in-flight workloads (subsets of size <= 2 of {U with the handler waiting, B mid-stream, CS blocked on the window}, or none) x InitiateShutdown (forward) / GracefulStop (reverse) at every quiescent point x 1-2 RPCs attempted afterwards x {flow control, revision zero}; quick: the shutdown alone at every point (D=1), thorough: + one further deviation, which interleaves the later RPCs' frames with the in-flight ones; then Stop; oracle: later RPCs end Unavailable and never reach a handler, RPCs accepted before the shutdown complete normally with all data, the tunnel stays up, GracefulStop returns once they finished, Stop returns after Serve with all handler contexts cancelled, nothing left behind",
+		Rule:      "in-flight workloads (subsets of size <= 2 of {U with the handler waiting, B mid-stream, CS blocked on the window}, or none) x InitiateShutdown (forward) / GracefulStop (reverse) at every quiescent point x 1-2 RPCs attempted afterwards x {flow control, revision zero}; quick: the shutdown alone at every point (D=1), thorough: + one further deviation, which interleaves the later RPCs' frames with the in-flight ones; then Stop; oracle: later RPCs end Unavailable and never reach a handler, RPCs accepted before the shutdown complete normally with all data, the tunnel stays up, GracefulStop returns once they finished, Stop returns after Serve with all handler contexts cancelled, nothing left behind",
 		Globals:   []func(*Scenario, *World, *Exec) []Violation{ProtoMonitor},
 		Scenarios: c10Scenarios})
 }
